@@ -1,10 +1,17 @@
 SPEC = {
     "trusted": [
-        "C14: the Gallina model coq/C14/Model.v of dukenest (nester_jar, nester_run, nests_mapper_run, io) and of the parts of quill::remapper it calls (map_desc, remapper_b without super classes)",
-        "C14: the harness' independent reference implementation of the documented nesting rules (harness/src/bin/c14) is the oracle used to search for failing inputs on the implementation",
+        "C14: the Gallina model coq/C14/Model.v of dukenest (nester_jar: filter, remap, attribute synthesis; nester_run: build_translation, apply, undo; nests_mapper_run: map_nests, inner_name, rsplit_underscore; io: Nests::read) and of the parts of quill::remapper it calls (map_desc, map_class, remapper_b without super classes); tied to the crates by the correspondence run (CApply, CUndo, CMapNests, CRead, CStrip, CJar cases)",
+        "C14: the harness' independent reference implementation of the documented nesting rules (harness/src/bin/c14/oracle.rs, jar.rs) is the oracle used to search for failing inputs on the implementation; output classes of nest_jar are read back with the independent strict class-file parser harness/src/classfile/raw.rs + facts_raw.rs, input classes are assembled by the harness' own constant-pool builder on top of raw::write",
+        "C14: class-level view of the jar in the model: class names with their method lists in entry order; the rewriting of references inside class files (dukebox::remap) is not modelled in Coq, it is checked on every generated jar by comparing the independently parsed output with the renamed input spec",
     ],
     "assumptions": [
-        "nests tables have unique class names (they are IndexMaps keyed by class name) and are acyclic (no class transitively enclosed by itself); on a cyclic table the Rust code recurses without bound, the model runs out of fuel",
+        "nests tables have unique class names (they are IndexMaps keyed by class name) and are acyclic (no class transitively enclosed by itself; decidable, C14_acyclic_decidable); on a cyclic table the Rust code recurses without bound (exhibited in a child process by the harness), the model runs out of fuel",
+        "undo∘apply: the translation is injective on the classes of the table and the classes the mappings mention in the source namespace (inj_on; otherwise an unlisted class that already carries the name Enclosing$Inner of a listed class is renamed by undo), table names contain no ';', mappings are well-formed (FB.Quill.Mappings.wf: unique keys, two namespaces)",
+        "map_nests keeps every nest when no two listed classes are mapped to the same target name (NoDup hypothesis of C14_map_nests_total); Nests::add replaces an earlier nest of the same class",
+        "jar = mapping agreement is stated for tables whose entries all apply to the jar (all_apply), as in the property; for other tables C14_jar_name_filtered says the jar side is the mappings construction over the filtered table",
     ],
-    "stated_not_proved": [],
+    "stated_not_proved": [
+        "refs_rewritten (every reference to a renamed class inside the class files is rewritten): belongs to C07's table of dukebox::remap; here it is checked by the harness oracle on every generated jar (independent parser, facts of output == facts of the renamed input spec), not proved in Coq",
+    ],
+    "harness_timeout": 3000,
 }
